@@ -26,6 +26,15 @@ def run(prog, rep):
     cd = Codecs(prog)
     cd.flag_errors(rep)
     rep.attempt(size_identity, prog, cd, rep, with_consumed=False)
+    # .. which identifies len(map) with len(items): true only while the two lists are mutated pairwise on every path
+    from .c01 import equivalence_discharge
+    equivalence_discharge(prog, cd, rep)
+    # add_block places the block at the offset of the slot it takes over, sizes it by nBytes and re-points the later slots
+    rep.attempt(ct.check_c02, rep)
+    # a refused add/remove inside a history must leave table and file as they were: a phantom entry left in the table puts
+    # an unused slot in front of a live one at the next successful call
+    from .c07 import path_rules
+    rep.attempt(path_rules, ct, Codecs(prog), rep, names=("add_block", "remove_block"), include_setters=False, prefix="refusal-leaves-table/")
     rep.attempt(lambda: M.parse_on_enter(ct, rep))
     rep.attempt(lambda: M.flush_on_exit(ct, rep))
     # every table entry is exactly ENT bytes only if the comment field is exactly 256 bytes
